@@ -49,4 +49,6 @@ package name
 //@ func Load(path) (n)
 //@   property C26
 //@   nopanic
+//@   loop 0 invariant[parts_private] len(splitPath) >= 1 && fresh(splitPath)
+//@   loop 0 invariant[caller_memory_untouched] entrymem()
 //@   ensures[result] n != nil
